@@ -54,6 +54,16 @@ def reader_core(ctx, src):
     u.raw('#include "stubs/libc.h"\n' + TYPES)
     call = lambda n: Rule(r'self->%s\((\s*\))?' % n, lambda mo: M(n) + ('(self)' if mo.group(1) else '(self, '), count='+', regex=True)
     callopt = lambda n: Rule(r'self->%s\((\s*\))?' % n, lambda mo: M(n) + ('(self)' if mo.group(1) else '(self, '), count=None, regex=True)
+    # the trivial const observers may be called from any member (e.g. `size > this->remaining()` instead of the open-coded
+    # subtraction): declared up front and lowered wherever they occur; they are inlined (not replaced) in every group
+    SIMPLE = ('where', 'size', 'remaining', 'eof')
+    u.raw(''.join('%s %s(const StringReader* self);\n' % ('bool' if n == 'eof' else 'size_t', M(n)) for n in SIMPLE))
+    _function = u.function
+
+    def function_with_observers(*a, **kw):
+        kw['rules'] = list(kw.get('rules') or []) + [callopt(n) for n in SIMPLE]
+        return _function(*a, **kw)
+    u.function = function_with_observers
     # --- Strings.hh, inline members ---
     u.function(src, HH, r'inline const void\* pgetv\(size_t offset, size_t size\) const', scope=SR,
                new_header='const void* %s(const StringReader* self, size_t offset, size_t size)' % M('pgetv'), ret_zero='0')
@@ -176,12 +186,17 @@ def tmpl_units(ctx, src):
                       Rule(r"self->data\.resize\(([^;]*?), ('[^']*')\);", r"vstr_resize_x(&self->data, \1, \2); if (verif_exc) return;", count=None, regex=True),
                       Rule(r'memcpy\(self->data\.data\(\) \+ ([^,;]*), &v, sizeof\(v\)\);', r'verif_memcpy(vstr_data(&self->data) + \1, v, sizeof(*v));', count=None, regex=True)])
     # BufferWriter
+    # type-directed (the reference parameter `const T& v` is the pointer `const T* v` in C): whatever the body does with v --
+    # forward to write/pwrite or copy it itself -- `&v` is the pointer and sizeof(v) the pointee size
+    BWV = [Rule(r'self->pwrite\(([^;]*?), &v, sizeof\((?:v|T)\)\);', r'BufferWriter_pwrite(self, \1, v, sizeof(*v)); if (verif_exc) return;', count=None, regex=True),
+           Rule(r'self->write\(&v, sizeof\((?:v|T)\)\);', r'BufferWriter_write(self, v, sizeof(*v)); if (verif_exc) return;', count=None, regex=True),
+           Rule(r'\bmemcpy\(([^;]*?), &v, sizeof\((?:v|T)\)\);', r'verif_memcpy(\1, v, sizeof(*v));', count=None, regex=True),
+           Rule(r'sizeof\(v\)', 'sizeof(*v)', count=None, regex=True),
+           Rule(r'(?<![\w.>])&v\b', 'v', count=None, regex=True)]
     u.function(src, HH, r'void put\(const T& v\)', scope=BW,
-               new_header='static inline void BWPUT(T)(BufferWriter* self, const T* v)',
-               rules=[Rule('self->write(&v, sizeof(v));', 'BufferWriter_write(self, v, sizeof(*v));', count=1)])
+               new_header='static inline void BWPUT(T)(BufferWriter* self, const T* v)', rules=BWV, ret_zero='')
     u.function(src, HH, r'void pput\(size_t offset, const T& v\)', scope=BW,
-               new_header='static inline void BWPPUT(T)(BufferWriter* self, size_t offset, const T* v)',
-               rules=[Rule('self->pwrite(offset, &v, sizeof(v));', 'BufferWriter_pwrite(self, offset, v, sizeof(*v));', count=1)])
+               new_header='static inline void BWPPUT(T)(BufferWriter* self, size_t offset, const T* v)', rules=BWV, ret_zero='')
     u.write(suffix='.inc')
     return u
 
